@@ -59,7 +59,11 @@ func specExpandXMD(it *absint.Interp, n int, oversize bool) []*absint.Term {
 		}
 		return out
 	}
-	b0 := absint.HashDigest(sha256ID, cat([]absint.Seg{constSeg(zpad...), msg, constSeg(int64(n>>8), int64(n&0xff)), constSeg(0)}, dstPrime))
+	msgSegs := []absint.Seg{msg}
+	if k, isC := it.ApplyTerm(msg.Len).IsConst(); isC && k.Sign() == 0 {
+		msgSegs = nil // a path on which the message is empty: nothing is absorbed for it
+	}
+	b0 := absint.HashDigest(sha256ID, cat([]absint.Seg{constSeg(zpad...)}, msgSegs, []absint.Seg{constSeg(int64(n>>8), int64(n&0xff)), constSeg(0)}, dstPrime))
 	b0b := digestBytes(b0)
 	ell := (n + 31) / 32
 	var uniform []*absint.Term
